@@ -38,7 +38,11 @@ def runtime_part(ctx):
         args = [exe, "--shard", str(k), str(nsh), "--lim-log2", str(lim)] + ([] if quick else ["--thorough"])
         if k != 0:
             args += ["--skip", "modular"]
-        return core.run_cmd(args, timeout=7000, env=env)
+        hang = 600 if quick else 7000
+        r = core.run_cmd(["timeout", "-s", "ABRT", "-k", "30", str(hang)] + args, timeout=hang + 120, env=env)
+        if r[3] >= hang - 1:
+            return (r[0], r[1], r[2] + "\nAUVHANG", r[3], False)
+        return r
     results = core.pmap(run_shard, range(nsh))
     tot = {}
     for k, (rc, out, err, secs, to) in enumerate(results):
@@ -63,7 +67,12 @@ def runtime_part(ctx):
                 args = ["--one", "mod", parts["a"], parts["b"], parts["n"], parts["e"]]
             else:
                 raise RuntimeError("c12 program died outside a case: %s" % d)
-            ctx.fail("C12: sanitizer/crash at %s: %s" % (w, err[-300:].replace("\n", " | ")), replay_for(args), detail=d)
+            rp = replay_for(args)
+            if "AUVHANG" in err:
+                rp["timeout"] = 120; rp["timeout_is_failure"] = True
+                ctx.fail("C12: library helper does not terminate (no result after %d s; a call normally takes microseconds) at %s" % (600 if quick else 7000, w), rp, detail=d)
+            else:
+                ctx.fail("C12: sanitizer/crash at %s: %s" % (w, err[-300:].replace("\n", " | ")), rp, detail=d)
         for s in stats:
             t = tot.setdefault(s["inst"], {"evals": 0, "nt": 0, "hist": {}, "samples": s["samples"]})
             t["evals"] += s["evals"]; t["nt"] += s["nt"]
@@ -85,7 +94,7 @@ SINGLE = '\n#ifdef AUV_SINGLE_TU\n#include "auv_main.cc"\nnamespace auv { int rc
 def replay_for(args):
     src = open(os.path.join(core.HARNESS, "c12_main.cc")).read() + SINGLE
     return {"mode": "run", "src": src, "cfg": list(CFG), "flags": ["-O1", "-DAUV_SINGLE_TU", "-fsanitize=undefined", "-fno-sanitize-recover=all"],
-            "args": args, "stdout": "AUVONE ok\n", "env": SAN_ENV}
+            "args": args, "stdout": "AUVONE ok\n", "env": SAN_ENV, "timeout": 120, "timeout_is_failure": True}
 
 
 # ---- compile-time part -----------------------------------------------------------------------
